@@ -338,7 +338,7 @@ def gen_trigger(rng, st, recorded, serial, fid):
                             t = own[0]
                             kind = v.kind[t] if v.ctype[t] in ("SOURCE", "PMUX") else rng.choice(H.NONLOAD)
                             cands.append({"op": "change_comp", "name": t, "comp": new_comp(kind, t, serial), "group": "", "rail": ""})
-    elif fid == "F28":
+    elif fid == "F32":
         if v.muxes:
             for t in v.names:
                 if v.kind[t] in H.NONLOAD:
@@ -362,13 +362,13 @@ def gen_trigger(rng, st, recorded, serial, fid):
         for k, r in v.rails.items():
             if r != "" and v.ctype[k] != "SLOSS":
                 cands.append({"op": "set_comp_phases", "name": r, "conf": {"names": [rng.choice(H.PHASES)]}})
-    elif fid == "F30":
+    elif fid == "F34":
         if not v.muxes:
             cands.append({"op": "add_comp", "parent": [], "comp": new_comp("pmux", fresh, serial), "group": "", "rail": ""})
     rng.shuffle(cands)
     for op in cands:
         f = H.facts(st, recorded, op)
         want = {"F17b": "F17", "F20b": "F20"}.get(fid, fid)
-        if want == "F30" or want in H.unsafe_ids(op, f):
+        if want == "F34" or want in H.unsafe_ids(op, f):
             return op
     return None
